@@ -8,4 +8,12 @@ PROPS = {
         "rule": "roundtrip of sampled ids (3/4 in the 10^7 id space, 1/4 any u32) + all border ids; parse of structured strings (valid renderings with other 3-byte prefixes, overflow region, signs, leading zeros) and random strings over an alphabet with 1-4 byte chars at every offset; distinct = distinct op lists; every case non-trivial",
         "assumptions": ["Rust u32::from_str grammar: optional '+', decimal digits, overflow is an error", "Display {:07} pads with zeros to at least 7 digits"],
     },
+    "C09": {
+        "rule": "fact sets of gen_facts (DAG shapes chain/tree/ladder/multi-root/random with HP:1 and HP:118, three annotation kinds with overlapping ids, optional obsolete/replaced_by flags) rendered in JAX style: header block with data-version at a random position, [Term] stanzas with alt_id/def/comment/synonym/xref/created_by lines around id/name/is_a '! label'/is_obsolete/replaced_by, [Typedef]/[Instance] stanzas, stanzas and rows shuffled; phenotype.hpoa with # block + column header, OMIM/ORPHA rows with 4..12 columns, NOT rows (also for diseases that occur nowhere else), DECIPHER rows; genes_to_phenotype.txt / phenotype_to_genes.txt with either header style and 3..7 columns; both loaders; every case compares r, the whole read-API dump, and `same` against the ontology built from the same facts through the Builder ops (when no flags) and through the v3 binary encoder; 1 case in 8 is from the malformed stream (16 kinds: unknown HPO id in a row, bad ids, missing columns, no header, obo line without ': ', bad ids in obo, NOT rows with bad content, stanza without name, id beyond the table, missing root) where only load success vs. failure is compared; distinct = distinct op lists; non-trivial = well-formed case with >=1 gene row, >=1 OMIM/ORPHA row and >=1 ignored element (NOT/DECIPHER row or non-Term stanza)",
+        "assumptions": [
+            "Rust std string functions behave as mirrored in HpoModel/Text.lean: str::split(char/&str), splitn, split_once, lines (and BufRead::lines), trim (Unicode White_Space), starts_with, strip_prefix, u8/u16/u32::from_str",
+            "files are valid UTF-8 with LF line ends (the generator emits nothing else); file-system errors (missing file) are not modelled",
+        ],
+        "partial": "C09_file_partial: proved for a whole rendered hp.obo (any number of stanzas in any order, [Typedef] blocks, header) is that readObo returns exactly the rendered term list and version, and for rendered row files that the row loops are exactly the folds of annotate calls over the rendered rows (NOT/comment/DECIPHER rows contributing nothing); that this fold over the Builder model is independent of stanza/row order and equal to the Builder-API / binary construction is C16's statement and is covered here by the correspondence check only (three-way `same` comparison on every well-formed case).",
+    },
 }
